@@ -52,6 +52,33 @@ var props = map[string]propCfg{
 		Real:      realFED, Stub: stubFED,
 		Assume:    []string{"Go map iteration inside pebbles cannot be seeded; order dependence that only changes an outcome is detected with probability 1-2^-(k-1) per run by the k-fold repetition"},
 	},
+	"C08": {
+		Level:     "exploration",
+		Technique: "deterministic simulation: one batch request to the real gateway under a seeded interleaving of the per-operation workers, twin gateway answering each element alone; content-keyed service failures; oracle = element-wise equality (data, multiset of errors) with the alone twin, and with the reference for valid fault-free elements",
+		Rule:      "a case = (world, configuration, batch of 0-6 (thorough 8) elements mixing queries, mutations, introspection, invalid operations, duplicates, poison level, schedule); non-trivial when the batch has >=2 elements and caused downstream requests; distinct by hash of (schemas, element kinds, configuration, schedule trace)",
+		Quick:     tierCfg{Runs: 12000, Budget: 60 * time.Second, Chunk: 250},
+		Thorough:  tierCfg{Runs: 300000, Budget: 12 * time.Minute, Chunk: 1000, Race: true},
+		Real:      realFED, Stub: stubFED,
+		Assume:    []string{"elements with an empty query string are not generated (the whole batch is then undecodable, C07's domain)", "introspection elements are compared with their alone twin, not with a model of introspection"},
+	},
+	"C09": {
+		Level:     "fault_enumeration",
+		Technique: "deterministic simulation with fault injection: per generated (world, operation) the fault-free run enumerates the downstream call sites, then every fault kind (5 transport, 19 service-answer kinds) x call site (<=5) x batch position (first/middle/last) is executed as its own request on a fixed canonical schedule, alone or with a clean sibling in the same batch, followed by a clean request; process death is caught by the parent",
+		Rule:      "evaluations = simulated runs (one world+operation each); a run is non-trivial when the operation has >=2 call sites and >=10 fault cases actually fired and were checked; distinct by hash of (schemas, operation, configuration, number of cases); faults_fired counts cases per kind; oracle_comparisons = fault cases checked",
+		Quick:     tierCfg{Runs: 1500, Budget: 60 * time.Second, Chunk: 50},
+		Thorough:  tierCfg{Runs: 60000, Budget: 12 * time.Minute, Chunk: 200},
+		Real:      realFED, Stub: stubFED,
+		Assume:    []string{"single faults are enumerated exhaustively per operation up to 5 call sites / 700 cases; fault sequences are covered only through the sibling/follow-up requests", "a service that never answers is not modelled (pebbles sets no downstream timeout)", "value provenance: every scalar leaf of data must occur in some (possibly faulted) service answer delivered for that operation"},
+	},
+	"C14": {
+		Level:     "exploration",
+		Technique: "deterministic simulation: twin gateways (caching planner with TTL 0/1ns/1s/1h vs plain planner) run the same request history drawn from a pool built to collide on the cache key (same selection under another operation type or name, other variable values), singles, batches and overlapping clients, gaps around the TTL on the simulated clock; oracle = request-by-request equality with the plain twin",
+		Rule:      "a case = (world with a root field under Query and Mutation in half the runs, TTL, pool, history of 2-8 (thorough 20) steps with gaps, schedule); non-trivial when >=3 requests were compared and downstream requests happened; distinct by hash of (schemas, pool, history, schedule trace)",
+		Quick:     tierCfg{Runs: 8000, Budget: 60 * time.Second, Chunk: 200},
+		Thorough:  tierCfg{Runs: 200000, Budget: 12 * time.Minute, Chunk: 500, Race: true},
+		Real:      realFED, Stub: stubFED,
+		Assume:    []string{"subscriptions interleaved with queries are exercised in the C17 scenario (caching planner is one of its configurations), not here"},
+	},
 	"C11": {
 		Level:     "exploration",
 		Technique: "deterministic simulation: real MultiOpQueryer on a simulated transport, seeded completion orders of the concurrent chunk calls and of the nested AsyncMapReduce yields, fault injection per chunk call, oracle = sequential specification (N results in request order, each request in exactly one call, <= m per call, error and no partial result on failure)",
@@ -69,6 +96,9 @@ var expectedProbes = map[string][]string{
 	"C02": {"fed.cross-service-stitch", "fed.node-lookup", "op.variable", "op.variable-omitted", "op.variable-in-input"},
 	"C12": {"fed.cross-service-stitch", "c12.batched-lookups-in-one-call", "c12.same-entity-repeated-in-a-list"},
 	"C13": {"det.repetitions", "det.distinct-delivery-orders", "det.errors-nonempty-case", "det.plan-order-draws"},
+	"C08": {"bat.failing-and-succeeding-element", "bat.empty-batch", "bat.element:introspection", "bat.element:invalid-syntax", "bat.element:duplicate", "bat.element:mutation", "bat.answers-overtook"},
+	"C09": {"flt.call-sites", "flt.cases"},
+	"C14": {"cch.same-selection-other-operation-type", "cch.plan-cache-hit", "cch.gap-beyond-ttl", "cch.concurrent-planning"},
 	"C11": {"qry.chunked", "qry.boundary-N=k*m", "qry.boundary-N=k*m+1", "qry.boundary-N=k*m-1", "qry.answers-overtook", "qry.failed-call", "qry.files"},
 	"C20": {"amr.errors-and-results", "amr.all-errors", "amr.nested", "amr.empty"},
 }
